@@ -75,6 +75,16 @@ func noteClass(h *harness.H, sig string) {
 // report minimises a failing case and files the violation.
 func report(ctx context.Context, env *hostEnv, h Sink, layer string, cn int, c Case, vd Verdict, origSrc string, quirk string) {
 	mc, mvd, builds := minimize(ctx, env, c, vd, minimiseBudget)
+	if mvd.Kind == vdMismatch && mvd.MKind == mkNonterm {
+		// minimised under a short watchdog: confirm under the full one
+		if re := judgeCase(ctx, env, mc); re.Kind == vdMismatch && re.MKind == mkNonterm {
+			mvd = re
+		} else {
+			mc, mvd = c, vd
+		}
+		h.Count("nonterminating_calls", 1)
+		h.Seen("nonterminating_shapes", funcShape(mc.F))
+	}
 	h.Count("minimisations", 1)
 	h.Count("minimise_builds", builds)
 	sig := signatureOf(mc, mvd)
@@ -191,7 +201,7 @@ func checkProgram(ctx context.Context, env *hostEnv, h Sink, layer string, cn in
 			fmt.Sprintf("analyzer accepted the program but stage %s failed: %s", b.stage, firstLine(b.diag)), witness{Source: src, Stage: b.stage.String(), Message: b.diag})
 		return
 	}
-	tagCount := map[string]struct{}{}
+	tagCount := map[string]int{}
 	silentCount := map[string]int{}
 	cov := map[string]struct{}{}
 	judged, agreeErr, mism := 0, 0, 0
@@ -234,6 +244,16 @@ func checkProgram(ctx context.Context, env *hostEnv, h Sink, layer string, cn in
 				return
 			case vdMismatch:
 				mism++
+				if vd.MKind == mkNonterm {
+					// the watchdog closed the guest module: report and abandon the program
+					if iso := judgeCase(ctx, env, c); iso.Kind == vdMismatch && iso.MKind == mkNonterm {
+						report(ctx, env, h, layer, cn, c, iso, src, sp.quirk)
+					} else {
+						h.Inconclusive("real-call-timeout-not-reproduced")
+					}
+					flush(h, tagCount, silentCount, cov, judged, agreeErr, mism)
+					return
+				}
 				key := vd.MKind
 				if !reported[key] {
 					reported[key] = true
@@ -257,9 +277,20 @@ func checkProgram(ctx context.Context, env *hostEnv, h Sink, layer string, cn in
 	flush(h, tagCount, silentCount, cov, judged, agreeErr, mism)
 }
 
-func flush(h Sink, tags map[string]struct{}, silentCount map[string]int, cov map[string]struct{}, judged, agreeErr, mism int) {
-	for t := range tags {
+func flush(h Sink, tags map[string]int, silentCount map[string]int, cov map[string]struct{}, judged, agreeErr, mism int) {
+	for t, n := range tags {
 		h.Seen("reference_features", t)
+		// arm coverage: judged calls that entered arm <i> of an if-chain (inside a loop /
+		// at top level), and those that left it by break / continue / return
+		if strings.HasPrefix(t, "ctl.") {
+			parts := strings.Split(t, ".")
+			switch len(parts) {
+			case 3:
+				h.Count("arms_entered_"+parts[1]+"_"+parts[2], n)
+			case 4:
+				h.Count("arm_exits_"+parts[1]+"_"+parts[2]+"_"+parts[3], n)
+			}
+		}
 	}
 	for t := range cov {
 		h.Seen("op_type_combinations", t)
@@ -276,7 +307,7 @@ func flush(h Sink, tags map[string]struct{}, silentCount map[string]int, cov map
 }
 
 // runCallsCollect is runCalls plus collection of the reference tags of every judged call.
-func runCallsCollect(ctx context.Context, b *built, c Case, tags map[string]struct{}) Verdict {
+func runCallsCollect(ctx context.Context, b *built, c Case, tags map[string]int) Verdict {
 	vd := Verdict{Kind: vdOK, Silent: map[string]int{}}
 	in := newInterp(c.F)
 	acc := map[string]struct{}{}
@@ -295,12 +326,17 @@ func runCallsCollect(ctx context.Context, b *built, c Case, tags map[string]stru
 		}
 		real := realCall(ctx, b, c.F, args)
 		if real.Timeout {
+			if in.Stmts() < nontermStmtLimit {
+				vd.Kind, vd.CallIdx, vd.MKind, vd.Ref, vd.Real, vd.Tags = vdMismatch, i, mkNonterm, ref, real, seqTags(acc, in)
+				vd.Real.Err = "" // the error text carries the watchdog's duration
+				return vd
+			}
 			vd.Kind, vd.CallIdx, vd.Ref, vd.Real = vdTimeout, i, ref, real
 			return vd
 		}
 		vd.Judged++
 		for _, t := range in.Tags() {
-			tags[t] = struct{}{}
+			tags[t]++
 		}
 		if mk := compareCall(ref, real); mk != "" {
 			vd.Kind, vd.CallIdx, vd.MKind, vd.Ref, vd.Real, vd.Tags = vdMismatch, i, mk, ref, real, seqTags(acc, in)
